@@ -76,11 +76,18 @@ def gen_nogc_consts():
     arm_exit = re.search(r"\b%d\s*=>\s*\{(.*?)\n    \}" % ops["ExitNoGc"], mem, flags=re.S)
     if not arm_enter or not arm_exit:
         raise ExtractError("dispatch arms for EnterNoGc/ExitNoGc not found in memory.inc")
+    # equivalent spellings are accepted (parse the structure, not the layout)
+    D = r"self\.no_gc_depth"
+    INC = rf"(?:{D} \+= 1;|{D} = {D} \+ 1;)"
+    DEC = rf"(?:{D} -= 1;|{D} = {D} - 1;)"
+    POS = rf"(?:{D} > 0|{D} != 0|{D} >= 1|0 < {D})"
+    ZERO = rf"(?:{D} == 0|{D} < 1|0 == {D})"
     a = " ".join(arm_enter.group(1).split())
-    if a != "self.no_gc_depth += 1;":
+    if not re.fullmatch(INC, a):
         raise ExtractError(f"EnterNoGc arm changed shape: {a!r}")
     b = " ".join(arm_exit.group(1).split())
-    mexit = re.fullmatch(r"if self\.no_gc_depth > 0 \{ self\.no_gc_depth -= 1; \} else \{ (.*return Err\(.*) \}", b)
+    mexit = re.fullmatch(rf"if {POS} \{{ {DEC} \}} else \{{ (.*return Err\(.*) \}}", b) or \
+        re.fullmatch(rf"if {ZERO} \{{ (.*return Err\(.*) \}} {DEC}", b)
     if not mexit:
         raise ExtractError(f"ExitNoGc arm changed shape: {b[:200]!r}")
     # VM API
@@ -92,19 +99,20 @@ def gen_nogc_consts():
         raise ExtractError("enter_no_gc / exit_no_gc / maybe_collect not found in gc.rs")
     en1 = " ".join(en.split())
     ex1 = " ".join(ex.split())
-    api_enter_saturates = bool(re.search(r"if self\.no_gc_depth >= MAX_NO_GC_DEPTH \{ return; \} self\.no_gc_depth \+= 1;", en1))
-    if not api_enter_saturates and en1 != "{ self.no_gc_depth += 1; }":
+    api_enter_saturates = bool(re.search(rf"if {D} >= MAX_NO_GC_DEPTH \{{ return; \}} {INC}", en1))
+    if not api_enter_saturates and not re.fullmatch(rf"\{{ {INC} \}}", en1):
         raise ExtractError(f"enter_no_gc changed shape: {en1!r}")
-    if not re.search(r"if self\.no_gc_depth == 0 \{ return; \} self\.no_gc_depth -= 1;", ex1):
+    if not (re.search(rf"if {ZERO} \{{ return; \}} {DEC}", ex1) or re.fullmatch(rf"\{{ if {POS} \{{ {DEC} \}} \}}", ex1)):
         raise ExtractError(f"exit_no_gc changed shape: {ex1!r}")
     # maybe_collect: the guard must precede every path to collect()
     mc1 = re.sub(r"#\[cfg\(vbxq_aelys_lang_verif\)\]", "", mc)
-    g = re.search(r"if self\.is_in_no_gc\(\)\s*\{\s*return;\s*\}", mc1)
+    g = re.search(rf"if (?:self\.is_in_no_gc\(\)|{POS})\s*\{{\s*return;\s*\}}", " ".join(mc1.split()))
+    mc1 = " ".join(mc1.split())
     c = mc1.find("self.collect()")
     if not g or c < 0 or g.start() > c:
         raise ExtractError("maybe_collect: the is_in_no_gc() early return no longer precedes collect()")
     isin = _fn_body(gc, r"pub fn is_in_no_gc\s*\(&self\)\s*->\s*bool\s*\{")
-    if isin is None or " ".join(isin.split()) != "{ self.no_gc_depth > 0 }":
+    if isin is None or not re.fullmatch(rf"\{{ {POS} \}}", " ".join(isin.split())):
         raise ExtractError("is_in_no_gc changed shape")
     # emission order of ExitNoGc relative to the return expression: read from the source text when the
     # shape is the known one, and always cross-checked against compiled code (behavioural probe: the
